@@ -925,9 +925,9 @@ def m_str_parse_usize(I, args, callee):
     """str::parse::<usize>: optional '+', then one or more ASCII digits, value < 2^64; anything else is Err"""
     s = as_slice(I, args[0])
     es = elems(I, s)
-    bad = err(Opaque('ParseIntError', ()))
+    bad = err(Opaque('ParseIntError', ('invalid digit found in string',)))
     if not es:
-        return bad
+        return err(Opaque('ParseIntError', ('cannot parse integer from empty string',)))
     i = 0
     if len(es) > 1 and truthy(I, I.binop('Eq', es[0], IntV(8, 43))):
         i = 1
@@ -1057,6 +1057,9 @@ def render_value(I, kind, ty, ref, out):
         render_value(I, 'display', 'Path', v.fields[0], out)
         return
     if isinstance(v, Opaque):
+        if v.tag == 'ParseIntError':
+            out.extend(IntV(8, b) for b in (v.parts[0] if v.parts else 'invalid digit found in string').encode())
+            return
         if v.tag in ('String', 'anyhow') and v.parts and isinstance(v.parts[0], Agg):
             render_value(I, kind, 'String', v.parts[0], out)
             return
